@@ -108,13 +108,13 @@ fn inv(op: &Op, _ctx: &dyn Context, data: &mut dyn CoordinateSet) -> usize {
     ];
 
     let mult = op.params.series("mult").unwrap_or(&MULT_DEFAULT);
-    let mult = [1. / mult[0], 1. / mult[1], 1. / mult[2], 1. / mult[3]];
 
     for i in 0..n {
         let coord = data.get_coord(i);
         let mut c = Coor4D::default();
         for j in 0..4_usize {
-            c[post[j]] = coord[j] * mult[j];
+            // Divide, rather than multiply by the (rounded) reciprocal
+            c[post[j]] = coord[j] / mult[j];
         }
         data.set_coord(i, &c);
     }
